@@ -377,7 +377,10 @@ def build(w, cx, op, st):
 
 def api(g, cx, op, st):
     c, a, v = op["call"], op["arg"], op["val"]
-    lines = g.lines
+    lo = cx.call("gfa.lines", lambda: g.lines)
+    if not lo.ok:
+        return
+    lines = lo.value
     l = lines[op["li"] % len(lines)] if lines else None
     what = "%s(%r,%r)" % (c, a, v)
     st.state(digest([c, a, repr(v)]))
